@@ -21,7 +21,8 @@ try:
                        env=dict(os.environ, GOFLAGS='-mod=mod', GOPROXY='off', GOSUMDB='off', GOTOOLCHAIN='local'))
     if r.returncode != 0:
         sys.exit('mutant does not build: ' + r.stderr)
-    diff = subprocess.check_output(['git', '-C', repo, 'diff']).decode()
+    files = [edits[i] for i in range(0, len(edits), 3)]
+    diff = subprocess.check_output(['git', '-C', repo, 'diff', '--'] + files).decode()
     open('/verif/selftest/%s.patch' % name, 'w').write(diff)
     json.dump({'property': prop, 'expect': expect, 'what': what}, open('/verif/selftest/%s.json' % name, 'w'), indent=1)
     print('wrote', name)
